@@ -181,6 +181,8 @@ def token_src(t):
         return "} finally {"
     if k == "fn":
         return "fn %s(%s) {" % (t["x"], ", ".join(p["x"] for p in t["ps"]))
+    if k == "import":
+        return "import \"%s\" as %s;" % (t["p"], t["x"])
     if k == "class":
         attrs = []
         if t["sup"]["k"] == "var":
@@ -394,6 +396,10 @@ class Builder:
                 self.pop_scope()
         self.emit(t="end")
         return self
+
+    def import_(self, path, name):
+        d = self.declare(name)
+        return self.emit(t="import", p=path, x=name, d=d)
 
     def break_(self):
         return self.emit(t="break")
